@@ -41,6 +41,8 @@ def correspondence(ctx):
         cases.append(f'rules|um|dir|{hexs([ctx.rng.choice(alpha) for _ in range(n)])}')
     for s_ in long_strings(ctx, alpha, (60 if ctx.tier == 'quick' else 3000)):
         cases.append(f'rules|um|dir|{hexs(s_)}')
+    for s_ in structured_strings(ctx, 800 if ctx.tier == 'quick' else 10000, ['filler_ascii', 'filler_2', 'rtl', 'rtl', 'rtl', 'ltrish', 'ltrish', 'marks', 'bad']):
+        cases.append(f'rules|um|dir|{hexs(s_)}')
     cases += fuzz_cases(ctx, {5})      # coverage-guided search of the tree under check (only when the source changed / thorough)
     res = run_cases(cases, ctx.work)
     listed = {k.get('id') for k in ctx.known}
